@@ -384,7 +384,7 @@ fn rand_cfg(ctx: &mut Ctx) -> Cfg {
     let k = ctx.rng.random_range(1..=3);
     let lens: Vec<u64> = (0..k).map(|_| ctx.rng.random_range(1..=7)).collect();
     let n: u64 = lens.iter().sum();
-    let world = [1u64, 1, 2, 3][ctx.rng.random_range(0..4)];
+    let world = [1u64, 1, 2, 3, 2, 3, 8, 17][ctx.rng.random_range(0..8)];
     Cfg {
         strategy: ctx.rng.random_range(0..3),
         // 0 is the value an unset seed arrives as (unwrap_or_default)
